@@ -333,6 +333,23 @@ def check_case(pt, acc, c):
     if all(v is not None for v in verdicts):
         acc.violation("literal_mismatch", c, "%s literal %r: %s | emitted: %r" % (cls, lit, verdicts, teal.split("\n")[1:3]))
         return
+    # ---- the same literal through assembleConstants (once -> pushbytes/pushint, twice -> constant block): the compiler re-reads
+    # its own escaped text there (unescapeStr / decoders), so the value pushed must still be the user's bytes
+    if cls == "int" or len(expected) <= 1024:
+        for times in (1, 2):
+            try:
+                body = [pt.Log(pt.Itob(expr) if cls == "int" else expr) for _ in range(times)]
+                teal2 = pt.compileTeal(pt.Seq(*body, pt.Int(1)), pt.Mode.Application, version=version, assembleConstants=True)
+                r2 = avm.run(avm.parse_any(teal2), avm.Ctx())
+            except Exception as e:
+                acc.violation("assembled_literal_mismatch", c, "assembleConstants compile/run raised %s: %s" % (type(e).__name__, str(e)[:200]))
+                return
+            want_log = expected.to_bytes(8, "big") if cls == "int" else expected
+            acc.counters["assembled_checked"] += 1
+            if r2.status != "approve" or r2.logs != [want_log] * times:
+                acc.violation("assembled_literal_mismatch", c, "%s literal %r under assembleConstants logged %r (status %s %s), expected %r | %r"
+                              % (cls, lit, r2.logs[:2], r2.status, r2.error, want_log, teal2.split("\n")[1:4]))
+                return
     if any(v is not None for v in verdicts):
         acc.counters["quoting_rules_disagree"] += 1
     acc.counters[cls + "_ok"] += 1
